@@ -220,9 +220,9 @@ func oracle(c core.Case, out []string) []core.Finding {
 		case "race":
 			if strings.HasPrefix(o, "race ") && !strings.HasPrefix(o, "race ok") {
 				add("autofile.GroupReader.concurrent-reader-skips-or-loses-records",
-					"a reader running concurrently with synced writes and rotations did not return a gap-free prefix of the log: "+o)
+					"a reader running concurrently with synced writes and rotations lost records that were on disk before it was created, or returned something unwritten: "+o)
 			}
-			if strings.HasPrefix(o, "race ok") {
+			if strings.HasPrefix(o, "race ") {
 				if rs := m["recs"]; rs != "-" && rs != "" {
 					for _, h := range strings.Split(rs, ",") {
 						d, _ := unhx(h)
